@@ -691,10 +691,19 @@ def r_canonical_subscript(c):
     dims = None
     for n in ast.walk(nf):
         gens = None
-        if isinstance(n, ast.For) and "zip(" in ast.unparse(n.iter):
+        def zips(it):
+            """iterates over a zip(..), written there or held in a local"""
+            if "zip(" in ast.unparse(it):
+                return True
+            return any(isinstance(a, (ast.Assign, ast.AnnAssign)) and a.value is not None
+                       and "zip(" in ast.unparse(a.value) and any(
+                           isinstance(t, ast.Name) and any(
+                               isinstance(y, ast.Name) and y.id == t.id for y in ast.walk(it))
+                           for t in (a.targets if isinstance(a, ast.Assign) else [a.target]))
+                       for a in ast.walk(nf))
+        if isinstance(n, ast.For) and zips(n.iter):
             tgt, gens = n.target, "loop"
-        elif isinstance(n, (ast.ListComp, ast.GeneratorExp)) \
-                and "zip(" in ast.unparse(n.generators[0].iter):
+        elif isinstance(n, (ast.ListComp, ast.GeneratorExp)) and zips(n.generators[0].iter):
             tgt, gens = n.generators[0].target, "comp"
         if gens is None:
             continue
@@ -709,7 +718,8 @@ def r_canonical_subscript(c):
             for cs, ev in tbl.items():
                 app = [e for e in ev if e[0] == "call" and e[1].endswith(".append")
                        and len(e[2]) == 1]
-                if len(app) != 1 or any(e[0] in ("exit", "opaque") for e in ev):
+                if len(app) != 1 or any(e[0] == "opaque" or (
+                        e[0] == "exit" and e[1] != "continue") for e in ev):
                     rows = None
                     break
                 rows.append((dict(cs), app[0][2][0]))
